@@ -15,7 +15,7 @@ import z3
 
 from bounded import isolated
 from props import C01c, C01py
-from props.native_common import add_native_functions, native_assumptions, python_functions
+from props.native_common import add_native_functions, native_assumptions, python_functions, ring_jobs, ring_report
 from vc.common import Obl, Report, finish_unit, main_wrapper, run_and_discharge
 from vc.pyvc.engine import OK, RAISE, Engine, State
 from vc.pyvc.values import ExcVal, IntMath, Obj, Opaque, Ref
@@ -112,6 +112,7 @@ def jobs(tier: str) -> List[tuple]:
     for w in (C01c.WIDTHS if th else (16,)):
         js.append((C01c.unit_loop, ('run_flat_loop_impl', w, 0)))
         js.append((C01c.unit_loop, ('run_paged_loop_impl', w, 0)))
+    js += ring_jobs()  # the last-executed-ops list of the native engine (also built on the exception path: last_run_last_ops)
     return js
 
 
@@ -124,6 +125,7 @@ def body(tier: str, seed: int) -> int:
     FR = importlib.import_module('flipjump.interpreter.fjm_run')
     rep.add_function('flipjump.interpreter.fjm_run', 'run', Engine.func_lines(FR.run), 'profile in {False, True}; engines through contracts that may raise each exception class')
     add_native_functions(rep, ('run_flat_loop_impl', 'run_paged_loop_impl'), 'quick: w=16; thorough: all widths')
+    ring_report(rep)
     native_assumptions(rep)
     rep.assume('[B only] fjm_run._run_native (finally block restoring op_counter from core.last_run_op_count) and Memory_run / build_run_result: exercised by the fault-injection runs, not under contract')
     rep.assume('not decided: an asynchronous KeyboardInterrupt delivered between two bytecodes of the python loops (no sequential program point)')
